@@ -29,14 +29,14 @@ func init() {
 // rangeSizesZS: sizes of the "fstreezs" kind - zstd-compressed objects whose payload is only half compressible, so that
 // the STORED form is larger than the 20 KiB header buffer (the periodic payload of the other kinds compresses to
 // a few hundred bytes); the largest one outruns the decoder's read-ahead
-var rangeSizesZS = []int{400000 + 77, 800000, 1600<<10 + 13}
+var rangeSizesZS = []int{3<<20 + 13, 4 << 20}
 
-// semiPayload: one 32-byte run of hash bytes in every 256 bytes of a short period: a 128 KiB zstd block of it is SHORTER than the
+// semiPayload: one 32-byte run of hash bytes in every 2048 bytes of a short period: a 128 KiB zstd block of it is SHORTER than the
 // 20 KiB header buffer while the whole stored form is longer (kept in step with Model/Range.lean).
 func semiPayload(size, seed int) []byte {
 	b := make([]byte, size)
 	for i := range b {
-		if (i>>5)&7 == 0 {
+		if (i>>5)&63 == 0 {
 			b[i] = byte((uint32(i)*2654435761 + uint32(seed)*97) >> 16)
 		} else {
 			b[i] = byte((i*7 + seed) % 251)
